@@ -176,9 +176,9 @@ fn process_z80r_block<H: Host>(emulator: &mut Emulator<H>, block_data: &[u8]) {
 fn process_spcr_block<H: Host>(emulator: &mut Emulator<H>, machine_id: u32, block_data: &[u8]) {
     // ch7ffd
     if machine_id < ZXST_MID_128K {
-        emulator.controller.write_7ffd(0); // Always 0 for 16k and 48k
+        emulator.controller.restore_7ffd(0); // Always 0 for 16k and 48k
     } else {
-        emulator.controller.write_7ffd(block_data[1]);
+        emulator.controller.restore_7ffd(block_data[1]);
     }
 
     // ch1ffd
